@@ -2,7 +2,7 @@
    The model is a total function: every loop is structural recursion over a listed object or an explicit fuel that is
    proved sufficient (C17/C18); that is the formal content of "never hangs" for the modelled logic.  The partial Go
    operations on Kubernetes-provided data are listed below with the fact that makes each one safe. *)
-From Esc Require Import SpecAws Examples proofs.AwsProofs proofs.ScanLemmas proofs.ScanState proofs.ScanTaint proofs.ScanOrder.
+From Esc Require Import SpecAws Examples proofs.AwsProofs proofs.ScanLemmas proofs.ScanState proofs.ScanTaint proofs.ScanOrder proofs.ScanRun.
 
 (* provider-id parsing: total on every byte string; fewer than five '/'-separated parts give the empty instance id,
    for which GetInstance issues no call and returns an error (F4 repair) *)
@@ -32,6 +32,18 @@ Theorem c20_endings : forall e o mn mx st a all_nodes all_pods,
   (r_out r = OutExit -> exists g d, oasg_rel a (Some g) /\ dry = false /\ snd (fst (aws_increase g d (e_aorc e))) = IncExit).
 Proof. exact scan_group_out. Qed.
 Print Assumptions c20_endings.
+
+(* RunOnce as a whole: it returns nil having processed every configured group, or it stops at the first group whose scan
+   ended fatally (not-in-group) or with the process exit (third fleet clean-up), or it returns the ordinary error of a
+   configured cloud group that the provider no longer knows; per-group errors never stop it *)
+Theorem c20_run_once_ends : forall s,
+  let res := run_once s in
+  (snd res = OutOk /\ length (fst res) = length (s_groups s)) \/
+  (snd res = OutErr /\ (length (fst res) < length (s_groups s))%nat) \/
+  (snd res = OutFatal /\ exists nr, In nr (fst res) /\ r_out (snd nr) = OutFatal) \/
+  (snd res = OutExit /\ exists nr, In nr (fst res) /\ r_out (snd nr) = OutExit).
+Proof. intros s. exact (run_groups_ends s (s_groups s) (s_cloud s)). Qed.
+Print Assumptions c20_run_once_ends.
 
 (* no error latch: whatever failed, the only memory a scan leaves is the lock (armed only by an accepted or, in dry
    mode, decided increase; otherwise the lock the scan found, released if expired) — see C02 — so the next scan is the
